@@ -470,6 +470,20 @@ CLAUSES = {
         _a("ChildRes", c="B", p="A", res=["p1", "a1"]), _a("Settle"),
         _a("RollActivate", c="C"), _a("AutoSuspend"), _a("Settle"),
         _a("Settle")]},
+    # C02 / C01: a CA with two parents loses the class under its first
+    # parent (that parent's own certificate shrinks to nothing in common)
+    # and regains it: the class that comes back is a new one beside the
+    # class under the other parent, which must be untouched throughout
+    "multi-class-lost-and-regained": {"slots": MULTI_SLOTS, "actions": [
+        _a("AddCa", c="B", p="A", res=["p1", "p2", "a1"]), _a("Settle"),
+        _a("AddCa", c="C", p="B", res=["p1"]), _a("Settle"),
+        _a("AddParent", c="C2", p="A", res=["p2"]), _a("Settle"),
+        _a("RoaAdd", c="C", r=["p1", "a1"]),
+        _a("RoaAdd", c="C", r=["p2", "a1"]), _a("Settle"),
+        _a("ChildRes", c="B", p="A", res=["p2", "a1"]), _a("Settle"),
+        _a("ChildRes", c="B", p="A", res=["p1", "p2", "a1"]), _a("Settle"),
+        _a("Settle"),
+        _a("RoaDel", c="C", r=["p2", "a1"]), _a("Settle")]},
     # C04: the child rolls while its parent rolls
     "roll-parent-and-child": {"actions": [
         _a("AddCa", c="B", p="A", res=["p1", "p2"]), _a("Settle"),
